@@ -9,6 +9,8 @@ regenerated facts. Ops:
   ap <ced> <entry>            → outcome of one `(*FSM).Apply`
   hist <ced> <entry>,…        → `n=<outcomes> crashed=<0|1> out=<outcome>,…` of replaying a whole log
   cov <type name>,…           → `ok` or `missing=<registered types the run never generated>`
+  fam                         → `concrete=<types>,… opaque=<types>,…`: the message types whose handler is a
+                                concrete model in `replicas_agree_consul_families` / still a hypothesis
 
 `<ced>` = structs.CEDowngrade (0|1). `<entry>` = `e` (empty log data) or `<first byte>:<hp>` where
 `<hp>`=1 iff the real handler panicked on the payload (oracle: the decode layer is not modelled).
@@ -24,6 +26,7 @@ import CV.Proto
 import CV.Fsm
 import CV.FsmFacts
 import CV.Engine.StoreCore
+import CV.FsmFamilies
 namespace CV.Engine.C01
 open CV CV.Fsm
 
@@ -66,6 +69,8 @@ def dispatchStep (toks : List String) : Option String :=
       let t := run Consul.table ced (fun _ => ()) () log
       some s!"n={t.results.length} crashed={encBool t.crashed} out={encList (t.results.map showOutcome)}"
     | _, _ => some "bad-op"
+  | ["fam"] =>
+    some s!"concrete={encList Families.concreteTypes} opaque={encList Families.opaqueTypes}"
   | ["cov", seen] =>
     let miss := Consul.missingTypes (decList seen)
     some (if miss.isEmpty then "ok" else s!"missing={encList miss}")
